@@ -388,7 +388,7 @@ func (m *Machine) mapSorts(t types.Type) (Sort, Sort) {
 		ks = SBV64
 	}
 	if typeString(mt.Key()) == "_refKey" {
-		ks = Sort("RefKeyV") // struct key {addr unsafe.Pointer; typ reflect.Type}
+		ks = Sort("RefKeyV") // struct key {addr unsafe.Pointer; typ reflect.Type; len int}
 	}
 	vs := m.elemSort(mt.Elem())
 	if typeString(mt.Elem()) == "_refElem" {
@@ -420,8 +420,8 @@ func (m *Machine) mapState(st *State, ref Term, t types.Type) *mapContent {
 }
 
 func (m *Machine) mapKeyTerm(st *State, v Value, ks Sort) Term {
-	if sv, ok := v.(*StructV); ok && ks == "RefKeyV" && len(sv.F) == 2 {
-		return app(ks, "mkrefkey", m.mapKeyTerm(st, sv.F[0], SBV64), sv.F[1].(Term))
+	if sv, ok := v.(*StructV); ok && ks == "RefKeyV" && len(sv.F) == 3 {
+		return app(ks, "mkrefkey", m.mapKeyTerm(st, sv.F[0], SBV64), sv.F[1].(Term), sv.F[2].(Term))
 	}
 	switch x := v.(type) {
 	case Term:
